@@ -63,6 +63,7 @@ func genC12(t *rapid.T) c12Case {
 		p.Validations = append(p.Validations, m.Validation{Name: name, Level: pick(t, []string{"violation", "warning", "info"}, "level"), Class: "ex.Test", Body: body,
 			Message: pick(t, []string{"", "bad {{ex.p0}}", "msg"}, "msg")})
 	}
+	decorateLevelLists(t, p)
 	for _, v := range p.Validations {
 		v.Body.MarkPolarity(m.Pos)
 	}
